@@ -453,3 +453,38 @@ def tag(case, obs):
     if k == 'schema':
         return 'schema %s %s' % (case['faults'][0][1][0], out)
     return '%s %s %s' % (k, case.get('what', ''), out)
+
+
+MANIFEST = {
+    'technique': 'Lean 4 theorems over a total model of Parser.parse (schema facts on variables, component units, the unit '
+                 'work list of C03, reactions, components, encapsulation, connection direction and work list of C01, maths '
+                 'incl. left-hand sides add_equation refuses, transform_constants) + fault injection with load_model in a '
+                 'subprocess under a wall limit + a reference validator written from the CellML 1.0 specification',
+    'text': ('Proved in Lean for every document of any size (lean/Cellml/Props/C17.lean; standard axioms only): load_total '
+             '(loadFull is a total function without fuel: both work lists are well-founded recursions; '
+             'connect_within_budget / connect_budget: the connection loop returns within n(n+1)/2+n+2 iterations for n '
+             'map_variables; units_worklist_terminates restated from C03). One theorem per fault class, each class an '
+             'EXISTENTIAL predicate over the sites of the document with the rest arbitrary (so: at any site, alone or '
+             'with any other fault), each in two versions (Load.load of C01, and loadFull = all of Parser.parse): '
+             'fault_rejected_missing_component, _missing_variable, _both_sources, _both_receivers, _no_direction, '
+             '_non_adjacent (facing interfaces other than out/in - after two fix: commits, see findings), '
+             '_incompatible_units, _two_sources (also the same map_variables twice), _unfed_relay, '
+             '_defined_twice_direct, _defined_twice_connected, _undefined_identifier, _undefined_unit, '
+             '_duplicate_component; full loader only: _nonvariable_lhs, _higher_order_lhs, _component_units, _reaction, '
+             '_schema_variable, _units_duplicate, _units_builtin_override, _units_offset, _units_dangling, _units_cycle '
+             '(the five unit classes through C03\'s reject_* theorems). PARTIAL: fault_rejected_init_and_equation_partial '
+             '(initial_value + equation) only for documents without ODEs. Non-vacuity: the valid relay document is '
+             'loaded by loadFull to the same flat model as by Load.load (relay_loadFull); one concrete faulty document '
+             'per class. Tie: ~670 (quick) / ~16500 (thorough) documents per seed: faults injected at first / middle / '
+             'last / random sites, singly and in pairs, schema faults at text level, valid controls; compared with the '
+             'compiled model: raises / returns, exception class, and the stage at which loading stops (message family). '
+             'Oracle, independent of the model: docgen.spec_violations decides from the document alone whether it has a '
+             'fault class of the property; any returned model (accepted:<class>), any time-out (hang:<class>, the loader '
+             'subprocess is killed after 20 s) or interpreter crash is a violation; a valid control that raises is one '
+             'too; documents with only non-listed faults may load but then must evaluate to what the document says.'),
+    'note': ('Trusted: Lean kernel; propext, Classical.choice, Quot.sound; the harness and docgen.py. RELAX NG validation, '
+             'XML parsing and the MathML transpiler are lxml\'s / exercised, not modelled: schema-invalid and malformed '
+             'documents are covered by the fault stream only. `python -O` (assert removed) is out of scope. Two genuine '
+             'defects were repaired in /repo (sibling interfaces, non-adjacent components); C01\'s model of '
+             '_determine_connection_direction follows the repaired code.'),
+}
